@@ -101,7 +101,7 @@ def main():
         ],
         "checks": checks,
         "not_applicable": na,
-        "notes": "All checks: exit 0 = held on everything explored (KNOWN-FINDING lines possible), 1 = VIOLATION line with replay file, 2 = harness/build error. VERIF_SEED (default 20260917) decides every run. Known findings: /verif/known_findings.json (R1-R11 fixed in /repo by 'fix:' commits; one open finding, F1, on C08 - see DESIGN.md 13). Sensitivity: selftest/mutants.py (37 mutants) and seeded/ (101 independently written breaking changes in 9 rounds, DESIGN.md 12). Silence on correct code: benign/ (32 independently written property-preserving changes, DESIGN.md 12.9). See DESIGN.md.",
+        "notes": "All checks: exit 0 = held on everything explored (KNOWN-FINDING lines possible), 1 = VIOLATION line with replay file, 2 = harness/build error. VERIF_SEED (default 20260917) decides every run. Known findings: /verif/known_findings.json (R1-R11 fixed in /repo by 'fix:' commits; one open finding, F1, on C08 - see DESIGN.md 13). Sensitivity: selftest/mutants.py (37 mutants) and seeded/ (104 independently written breaking changes in 9 rounds, DESIGN.md 12). Silence on correct code: benign/ (32 independently written property-preserving changes, DESIGN.md 12.9). See DESIGN.md.",
     }
     with open(os.path.join(HERE, "MANIFEST.json"), "w") as f:
         json.dump(m, f, indent=1)
